@@ -487,7 +487,7 @@ bool var_opt_union<T, A>::detect_and_handle_subcase_of_pseudo_exact(var_opt_sket
   } else {
 
     // explicitly enforce rule that items in H should not be lighter than the sketch's tau
-    const bool anti_condition4 = there_exist_unmarked_h_items_lighter_than_target(gadget_.get_tau());
+    const bool anti_condition4 = there_exist_unmarked_h_items_lighter_than_target(get_outer_tau());
     if (anti_condition4) {
       return false;
     } else {
